@@ -65,6 +65,7 @@ pub struct Sub {
     bound: AtomicU64,
     seq: AtomicU64,
     kept: Mutex<Vec<(u64, String)>>,
+    printed: Mutex<Vec<String>>,
 }
 impl Sub {
     /// Is a violation at position `ord` still of interest? (monotone: once false, stays false)
@@ -132,21 +133,26 @@ impl Ctx {
             bound: AtomicU64::new(u64::MAX),
             seq: AtomicU64::new(0),
             kept: Mutex::new(Vec::new()),
+            printed: Mutex::new(Vec::new()),
         }));
         self.subs.lock().unwrap().push(s);
         s
     }
-    /// Print (once) the violations of all sub-checks finished so far.
+    /// Print the kept violations that were not printed yet (at most MAXF per sub-check in total).
+    /// Called at the end of every phase so that a killed run still leaves its findings.
     pub fn flush(&self, phase: &str) {
-        let subs: Vec<&'static Sub> = std::mem::take(&mut *self.subs.lock().unwrap());
-        for s in subs {
+        for s in self.subs.lock().unwrap().iter() {
             let k = s.kept.lock().unwrap();
+            let mut done = s.printed.lock().unwrap();
+            let before = done.len();
             for (_, l) in k.iter() {
-                println!("{l}");
+                if done.len() < MAXF && !done.contains(l) {
+                    println!("{l}");
+                    done.push(l.clone());
+                }
             }
-            let n = s.n.load(Relaxed);
-            if n > 0 {
-                eprintln!("oracle: sub-check '{}': {} violating inputs seen, {} printed", s.name, n, k.len());
+            if done.len() > before {
+                eprintln!("oracle: sub-check '{}': {} violations recorded, {} printed", s.name, s.n.load(Relaxed), done.len());
             }
         }
         eprintln!("oracle: [{:7.2}s] {phase}", self.t0.elapsed().as_secs_f64());
